@@ -27,6 +27,12 @@ type decodeInfo struct {
 	gsubr        cffIndex
 	defaultWidth float64
 	nominalWidth float64
+
+	// budget, if non-nil, is the number of bytes of subroutine code which
+	// may still be executed.  This is shared between all glyphs of a font
+	// and limits the amount of work (and memory) nested subroutine calls
+	// can cause.
+	budget *int64
 }
 
 type ccStage int
@@ -623,6 +629,12 @@ func (info *decodeInfo) decodeCharString(code []byte) (*Glyph, error) {
 				}
 				if err != nil {
 					return nil, err
+				}
+				if info.budget != nil {
+					*info.budget -= int64(len(code)) + 1
+					if *info.budget < 0 {
+						return nil, invalidSince("too much subroutine code executed")
+					}
 				}
 
 			case t2return:
